@@ -200,6 +200,13 @@ def rule_label(repo: Repo, rep: Report) -> int:
                 return False
             return None
 
+        if cname == "Pi4QPSKModulator":
+            pst_, pd_ = pi4_forward_evaluated(repo, cname)
+            if pst_ is not None:
+                rep.add("LABEL", fi, f"{cname}: forward evaluated - every bit pair is sent as the point of its own label row (both tables, both labelings)", pst_, pd_, node=fi.node)
+                n += 2
+                n += natural_table_rule(repo, rep, ci, cname)
+                continue
         if cname in ("PSKModulator", "QPSKModulator"):
             est_, ed_ = modulator_forward_evaluated(ci, fi, bs, via_map=(idiom == "M"))
             if est_ is not None:
@@ -783,6 +790,49 @@ def dpsk_detection_evaluated(dd: FuncInfo):
                 if got != want:
                     return VIOLATION, f"for order {M}, previous point {a} (phase {_cm.phase(pts[a]):.3f}) and current point {b} (phase {_cm.phase(pts[b]):.3f}) the detector decides for step {got} instead of {want}: the differential phase is not reduced correctly modulo 2 pi (pairs whose phases straddle the +-pi cut of torch.angle are decided wrongly)"
     return OK, "unlisted spelling; the decided index is the phase step (b - a) mod M for every ordered pair of points, M = 4 and 8"
+
+
+def oqpsk_modulator_evaluated(repo: Repo):
+    """OQPSKModulator.forward (class helpers followed, the carried quadrature value kept on the object) evaluated with own
+    arithmetic on one row of 3 and of 4 bit pairs and on a batch of two rows, in training and in evaluation mode: symbol
+    t is (amplitude of in-phase bit t) + j (amplitude of quadrature bit t-1), the quadrature of symbol 0 being the carried
+    value; amplitude = (1 - 2 bit) * normalisation.  Returns (status, detail) or (None, reason)."""
+    ci = repo.cls(f"{MD}/oqpsk.py", "OQPSKModulator")
+    fwd = repo.method(ci, "forward")
+    funcs = {f"self.{nm}": m.node for nm, m in ci.methods.items() if nm not in ("forward", "__init__")}
+    norm, d0 = 0.5, 0.25
+    runs = 0
+    for x in ([0.0, 1.0, 1.0, 1.0, 0.0, 0.0], [1.0, 0.0, 0.0, 0.0, 1.0, 1.0, 0.0, 1.0], [[0.0, 1.0, 1.0, 1.0, 1.0, 0.0], [1.0, 0.0, 0.0, 0.0, 0.0, 1.0]]):
+        for training in (True, False):
+            attrs = {"self._delayed_quad": d0, "self._normalization": norm, "self.training": training, "self.normalize": True}
+            try:
+                run_fragment(fwd.body, {"x": x, "args": PySeq([]), "kwargs": {}}, attrs, funcs=funcs, materialise=True, max_steps=200000, attrs_live=True)
+                return None, "no value returned"
+            except FragReturn as ret:
+                out = ret.value
+            except (Unfoldable, FragRaise, TypeError, ValueError, IndexError) as exc:
+                return None, f"forward not evaluable ({exc})"
+            rows = x if isinstance(x[0], list) else [x]
+            want = []
+            for r_ in rows:
+                ib, qb = r_[0::2], r_[1::2]
+                want.append([complex((1 - 2 * ib[t]) * norm, d0 if t == 0 else (1 - 2 * qb[t - 1]) * norm) for t in range(len(ib))])
+            got = out if isinstance(x[0], list) else [out]
+            try:
+                ok = len(got) == len(want) and all(len(g_) == len(w_) and all(abs(complex(a_) - b_) < 1e-12 for a_, b_ in zip(g_, w_)) for g_, w_ in zip(got, want))
+            except TypeError:
+                return None, "the result is not a block of complex symbols"
+            if not ok:
+                return VIOLATION, f"bits {str(x)[:70]}, carried quadrature value {d0}: the symbols are {str(out)[:140]}; in-phase amplitude of pair t with the quadrature amplitude of pair t-1 (the carried value first) gives {str(want if isinstance(x[0], list) else want[0])[:140]}"
+            carried = attrs.get("self._delayed_quad")
+            while isinstance(carried, list) and len(carried) == 1:
+                carried = carried[0]
+            last = [(1 - 2 * r_[-1]) * norm for r_ in rows]
+            want_c = sum(last) / len(last) if training else d0
+            if isinstance(carried, list) or abs(complex(carried) - want_c) > 1e-12:
+                return VIOLATION, f"bits {str(x)[:70]}, {'training' if training else 'evaluation'} mode: the quadrature value carried to the next call is {carried!r} instead of {want_c}"
+            runs += 1
+    return OK, f"{runs} runs: the in-phase rail is undelayed, the quadrature rail delayed by exactly one symbol with the carried value first; the carried value is the last quadrature amplitude in training mode and unchanged in evaluation mode"
 
 
 def pi4_forward_evaluated(repo: Repo, cname: str):
@@ -1512,18 +1562,24 @@ def rule_memory(repo: Repo, rep: Report) -> int:
     # OQPSK: only the quadrature rail is delayed, by exactly one symbol
     om = repo.method(repo.cls(f"{MD}/oqpsk.py", "OQPSKModulator"), "forward")
     dq = [s for s in ast.walk(om.node) if isinstance(s, ast.Assign) and isinstance(s.targets[0], ast.Name) and s.targets[0].id == "delayed_quad"]
-    if len(dq) == 1:
+    ost_, od_ = oqpsk_modulator_evaluated(repo)
+    if ost_ is not None:
+        rep.add("MEMORY", om, "OQPSK modulator forward evaluated: one row and a batch, training and evaluation mode", ost_, od_, node=om.node)
+        n += 2
+    elif len(dq) == 1:
         st, d, _ = classify(dq[0].value, ["torch.cat([prev_quad.unsqueeze(-1), quad[..., :-1]], dim=-1)"])
         rep.add("MEMORY", om, f"OQPSK: {unparse(dq[0])[:90]}", st, d if st != OK else "quadrature stream delayed by one symbol, carried value first", node=dq[0])
     else:
         rep.undecided("MEMORY", om, "OQPSK delayed_quad", "not found")
     rets = [s for s in ast.walk(om.node) if isinstance(s, ast.Return)]
-    if len(rets) == 1:
+    if ost_ is not None:
+        pass
+    elif len(rets) == 1:
         st, d, _ = classify(rets[0].value, ["torch.complex(in_phase, delayed_quad)"])
         rep.add("MEMORY", om, f"OQPSK: {unparse(rets[0])}", st, d if st != OK else "in-phase rail undelayed, quadrature rail delayed", node=rets[0])
     else:
         rep.undecided("MEMORY", om, "OQPSK return", "not unique")
-    n += 2
+    n += 2 if ost_ is None else 0
     # pi/4-QPSK: both sides select the constellation by the same toggling flag
     for cname in ("Pi4QPSKModulator", "Pi4QPSKDemodulator"):
         ci = repo.cls(f"{MD}/pi4qpsk.py", cname)
